@@ -11,8 +11,9 @@ import (
 
 // idxGen draws store-level indexes around a window centre.
 type idxGen struct {
-	centre int
-	far    int // largest offset used for "far" draws
+	centre   int
+	far      int  // largest offset used for "far" draws
+	extremes bool // also draw indexes next to MinInt32 / MaxInt32 (stores without a span limit only)
 }
 
 func newIdxGen(r *rng.Rng, far int, allowExtremes bool) *idxGen {
@@ -28,12 +29,19 @@ func newIdxGen(r *rng.Rng, far int, allowExtremes bool) *idxGen {
 	default:
 		g.centre = -lim + r.Intn(1000)
 	}
-	_ = allowExtremes
+	g.extremes = allowExtremes
 	return g
 }
 
 // next draws an index; class reports which alignment family it came from.
 func (g *idxGen) next(r *rng.Rng) (int, string) {
+	if g.extremes && r.P(0.04) {
+		// both ends of the int32 range: consecutive encoded bins can then be more than 2^31 apart
+		if r.Bool() {
+			return math.MaxInt32 - 1 - r.Intn(100), "int32_extreme"
+		}
+		return math.MinInt32 + 1 + r.Intn(100), "int32_extreme"
+	}
 	switch r.Pick(6, 4, 3, 3, 2) {
 	case 0:
 		return g.centre + r.Range(-3, 3), "clustered"
@@ -393,7 +401,7 @@ func runStoreHistory(c *core.Ctx, mainSpec gen.StoreSpec, argSpecs func(r *rng.R
 	} else if r.P(0.2) {
 		far = 200000
 	}
-	h := &storeHist{c: c, r: r, ig: newIdxGen(r, far, mainSpec.Kind == gen.SSparse), argSpecs: argSpecs, checked: checked,
+	h := &storeHist{c: c, r: r, ig: newIdxGen(r, far, mainSpec.Kind == gen.SSparse && r.P(0.3)), argSpecs: argSpecs, checked: checked,
 		opts: mon.CheckOpts{Bins: true, Ranks: true, MaxRanks: 24}, opKinds: map[string]bool{}}
 	h.main = mon.NewMonStore(c, mainSpec, h.name())
 	h.pool = append(h.pool, h.main)
